@@ -63,8 +63,21 @@ def seal(payload: bytes, key: bytes, iv: bytes, attrs, aad: bytes | None = None,
     return hdr + ct + aead_footer(tag), {"hdr_len": len(hdr), "ct_len": len(ct), "padding": padding}
 
 
-def keystore_text(key_id: uuid.UUID, data1: bytes, data2: bytes, *, mode="NONE", style=0):
-    enc = lambda b: quote(base64.b64encode(b).decode(), safe="").replace("%3D", "%3d")  # noqa: E731
+def keystore_text(key_id: uuid.UUID, data1: bytes, data2: bytes, *, mode="NONE", style=0, esc_case="esxi"):
+    """esc_case: how the percent escapes of '=', '+', '/' are written - "esxi" (%3d lower, others as urllib writes them),
+    "lower", "upper", "mixed" (RFC 3986: hex digits of an escape are case-insensitive) or "none" (base64 left unescaped)."""
+    def enc(b):
+        t = base64.b64encode(b).decode()
+        if esc_case == "none":
+            return t
+        q = quote(t, safe="")
+        if esc_case == "esxi":
+            return q.replace("%3D", "%3d")
+        if esc_case == "lower":
+            return q.replace("%3D", "%3d").replace("%2B", "%2b").replace("%2F", "%2f")
+        if esc_case == "mixed":
+            return q.replace("%3D", "%3d").replace("%2B", "%2B").replace("%2F", "%2f")
+        return q
     ced = f"keyId={enc(key_id.bytes)}:data1={enc(data1)}:data2={enc(data2)}:version=1"
     if style == 0:
         return f'.encoding = "UTF-8"\nincludeKeyCache = "FALSE"\nmode = "{mode}"\nConfigEncData = "{ced}"\n'
